@@ -92,6 +92,21 @@ CLAIMED = {
             'partial: per-site coverage is finite-by-measurement on one covering module (corpus re-layout not yet included); multi-word '
             'reserved words are a known finding',
             'Coq proof (strong induction over trivia) + differential correspondence + exhaustive boundary sweep'),
+    'C07': ('proof',
+            'Theorems for literals of ANY length: an hstring denotes the 4-bit expansion of each digit and a bstring bit i = (digit i '
+            'is 1) through the quoted-form lexer; octets<->bits is the 8-bit big-endian expansion and exact in both directions; a '
+            'named-bit list has ones exactly at the chosen names\' positions; a cstring with doubled quotation marks lexes to exactly the '
+            'text and leaves exactly the rest (also when a doubled mark occurs later in the source), and a break over two lines with its '
+            'surrounding spacing is not part of the value; OBJECT IDENTIFIER arcs in number / name(number) / bare-name form resolve '
+            'to the numbers of the X.660 table. hex_to_bools and well_known are re-translated from the Rust source on every run; the '
+            'hand model of the lexers and conversions is tied by correspondence through hooks. The composition through linker and '
+            'generator (value references, governing types and reference chains, CHOICE/SEQUENCE/SEQUENCE OF, DEFAULT) is decided by '
+            'search: every generated initialiser is evaluated symbolically and compared with the source value',
+            '§6 C07',
+            'partial: link_with_type and value_to_tokens are covered by the search only; initialiser type-correctness is C01\'s subject; '
+            'cstring line joining is proved for one break; two known findings (one-component SEQUENCE values read as OID, letter arcs)',
+            'Coq proof (induction over literal length, finite sweeps lifted) + regenerated tables + differential correspondence + '
+            'symbolic evaluation of generated initialisers'),
     'C08': ('proof',
             'partial. Proved for every input: the nestable-comment scanner never slices out of range; the error-excerpt arithmetic '
             '(until_next_unindented, contextualize) stays in range and on character boundaries for every report the position '
